@@ -1,0 +1,59 @@
+//go:build verif
+
+// Contracts for govc (the /verif contract verifier). Comment-only: with the build tag off this file is not
+// compiled, with it on it adds no code.
+package execution
+
+// Expression.Evaluate is a deterministic function of (expression, context): evalVal / evalErr are its two results.
+//@ spec evalVal(e Expression, ctx ExecutionContext) Value
+//@ spec evalErr(e Expression, ctx ExecutionContext) error
+//@ spec isNull(v Value) bool = v.TypeID == 0
+//@ spec isTrue(v Value) bool = v.TypeID == 3 && v.Boolean
+//@ spec isFalse(v Value) bool = v.TypeID == 3 && !v.Boolean
+//@ spec okAt(c []Expression, ctx ExecutionContext, j int) bool = evalErr(c[j], ctx) == nil
+// value invariant established by the octosql constructors: only Boolean values carry Boolean == true
+//@ spec boolOrNull(v Value) bool = (v.TypeID == 0 && !v.Boolean) || v.TypeID == 3
+
+// C11: Kleene AND. FALSE iff some argument is FALSE with no error before it; NULL iff none FALSE and some NULL; TRUE
+// iff all TRUE; an error is the first failing argument's, and only if no FALSE came before it.
+//@ func (*And).Evaluate
+//@   requires forall(j, 0, len(c.args), boolOrNull(evalVal(c.args[j], ctx)))
+//@   loop 1 invariant range: 0 <= $k && $k <= len(c.args)
+//@   loop 1 invariant prefix: forall(j, 0, $k, okAt(c.args, ctx, j) && !isFalse(evalVal(c.args[j], ctx)))
+//@   loop 1 invariant nullseen: nullEncountered == exists(j, 0, $k, isNull(evalVal(c.args[j], ctx)))
+//@   ensures kleene.type: result1 == nil ==> boolOrNull(result0)
+//@   ensures kleene.false: result1 == nil && isFalse(result0) ==> exists(j, 0, len(c.args), isFalse(evalVal(c.args[j], ctx)) && forall(i, 0, j, okAt(c.args, ctx, i)))
+//@   ensures kleene.true: result1 == nil && isTrue(result0) ==> forall(j, 0, len(c.args), okAt(c.args, ctx, j) && isTrue(evalVal(c.args[j], ctx)))
+//@   ensures kleene.null: result1 == nil && isNull(result0) ==> forall(j, 0, len(c.args), okAt(c.args, ctx, j) && !isFalse(evalVal(c.args[j], ctx))) && exists(j, 0, len(c.args), isNull(evalVal(c.args[j], ctx)))
+//@   ensures errprop: result1 != nil ==> exists(j, 0, len(c.args), !okAt(c.args, ctx, j) && forall(i, 0, j, okAt(c.args, ctx, i) && !isFalse(evalVal(c.args[i], ctx))))
+//@   ensures noswallow: (exists(j, 0, len(c.args), !okAt(c.args, ctx, j) && forall(i, 0, j, okAt(c.args, ctx, i) && !isFalse(evalVal(c.args[i], ctx))))) ==> result1 != nil
+
+// C11: Kleene OR, dually.
+//@ func (*Or).Evaluate
+//@   requires forall(j, 0, len(c.args), boolOrNull(evalVal(c.args[j], ctx)))
+//@   loop 1 invariant range: 0 <= $k && $k <= len(c.args)
+//@   loop 1 invariant prefix: forall(j, 0, $k, okAt(c.args, ctx, j) && !isTrue(evalVal(c.args[j], ctx)))
+//@   loop 1 invariant nullseen: nullEncountered == exists(j, 0, $k, isNull(evalVal(c.args[j], ctx)))
+//@   ensures kleene.type: result1 == nil ==> boolOrNull(result0)
+//@   ensures kleene.true: result1 == nil && isTrue(result0) ==> exists(j, 0, len(c.args), isTrue(evalVal(c.args[j], ctx)) && forall(i, 0, j, okAt(c.args, ctx, i)))
+//@   ensures kleene.false: result1 == nil && isFalse(result0) ==> forall(j, 0, len(c.args), okAt(c.args, ctx, j) && isFalse(evalVal(c.args[j], ctx)))
+//@   ensures kleene.null: result1 == nil && isNull(result0) ==> forall(j, 0, len(c.args), okAt(c.args, ctx, j) && !isTrue(evalVal(c.args[j], ctx))) && exists(j, 0, len(c.args), isNull(evalVal(c.args[j], ctx)))
+//@   ensures errprop: result1 != nil ==> exists(j, 0, len(c.args), !okAt(c.args, ctx, j) && forall(i, 0, j, okAt(c.args, ctx, i) && !isTrue(evalVal(c.args[i], ctx))))
+//@   ensures noswallow: (exists(j, 0, len(c.args), !okAt(c.args, ctx, j) && forall(i, 0, j, okAt(c.args, ctx, i) && !isTrue(evalVal(c.args[i], ctx))))) ==> result1 != nil
+
+// C17: the counting trigger against google/btree's abstract view (thas/ttag/tget: key class -> stored item).
+//@ spec item(c *CountingTrigger, k int) *countingTriggerItem = tget(c.counts, k, countingTriggerItem)
+//@ spec ri(c *CountingTrigger) bool = c.triggerAfter >= 1 && addr(c.counts) > 0 && forallK(k, thas(c.counts, k) ==> ttag(c.counts, k) == typeidptr(countingTriggerItem) && 0 < addr(item(c, k)) && addr(item(c, k)) < frontier() && item(c, k).Count >= 1 && item(c, k).Count < c.triggerAfter && cls(item(c, k).GroupKey) == k) && forallK(k1, forallK(k2, thas(c.counts, k1) && thas(c.counts, k2) && k1 != k2 ==> addr(item(c, k1)) != addr(item(c, k2))))
+//@ func (*CountingTrigger).KeyReceived
+//@   requires ri(c)
+//@   ensures ri.basic: c.triggerAfter >= 1 && addr(c.counts) > 0
+//@   ensures ri.tags: forallK(k, thas(c.counts, k) ==> ttag(c.counts, k) == typeidptr(countingTriggerItem))
+//@   ensures ri.alloc: forallK(k, thas(c.counts, k) ==> 0 < addr(item(c, k)) && addr(item(c, k)) < frontier())
+//@   ensures ri.countrange: forallK(k, thas(c.counts, k) ==> item(c, k).Count >= 1 && item(c, k).Count < c.triggerAfter)
+//@   ensures ri.keys: forallK(k, thas(c.counts, k) ==> cls(item(c, k).GroupKey) == k)
+//@   ensures ri.separation: forallK(k1, forallK(k2, thas(c.counts, k1) && thas(c.counts, k2) && k1 != k2 ==> addr(item(c, k1)) != addr(item(c, k2))))
+//@   ensures frame: forallK(k, k != cls(key) ==> thas(c.counts, k) == old(thas(c.counts, k)) && (thas(c.counts, k) ==> item(c, k).Count == old(item(c, k).Count)))
+//@   ensures first: !old(thas(c.counts, cls(key))) && c.triggerAfter > 1 ==> thas(c.counts, cls(key)) && item(c, cls(key)).Count == 1 && len(c.toTrigger) == old(len(c.toTrigger))
+//@   ensures count: old(thas(c.counts, cls(key))) && old(item(c, cls(key)).Count) + 1 < c.triggerAfter ==> thas(c.counts, cls(key)) && item(c, cls(key)).Count == old(item(c, cls(key)).Count) + 1 && len(c.toTrigger) == old(len(c.toTrigger))
+//@   ensures fires: (old(thas(c.counts, cls(key))) && old(item(c, cls(key)).Count) + 1 == c.triggerAfter) || (!old(thas(c.counts, cls(key))) && c.triggerAfter == 1) ==> !thas(c.counts, cls(key)) && len(c.toTrigger) == old(len(c.toTrigger)) + 1 && cls(c.toTrigger[len(c.toTrigger)-1]) == cls(key)
+//@   ensures pending.kept: forall(j, 0, old(len(c.toTrigger)), cls(c.toTrigger[j]) == old(cls(c.toTrigger[j])))
